@@ -56,7 +56,7 @@ func (m *Machine) textID(key string) T {
 func (m *Machine) FreshText(hint string) Text {
 	c := m.C
 	s := m.intSort()
-	t := Text{W: c.Fresh(hint+".w", s), N: c.Fresh(hint+".n", s), NL: m.IntC(0), CUU: m.IntC(0), ID: c.Fresh(hint+".id", s)}
+	t := Text{W: m.Fresh(hint+".w", s), N: m.Fresh(hint+".n", s), NL: m.IntC(0), CUU: m.IntC(0), ID: m.Fresh(hint+".id", s)}
 	z := m.IntC(0)
 	m.Assume(c.And(m.sle(z, t.W), m.sle(z, t.N), m.sle(t.W, m.IntC(1<<20)), m.sle(t.N, m.IntC(1<<22)),
 		c.Implies(c.Eq(t.N, z), c.Eq(t.W, z)), m.slt(m.IntC(1<<40), t.ID)), "text "+hint+": 0<=width, 0<=len, len=0 => width=0")
@@ -438,7 +438,7 @@ func (m *Machine) approx(it *Item, exact T, hint string) T {
 		f, _ := exact.Rat.Float64()
 		return c.RealF(f)
 	}
-	r := c.Fresh(hint, sym.SReal)
+	r := m.Fresh(hint, sym.SReal)
 	u := c.Real(ulp)
 	one := c.Real(big.NewRat(1, 1))
 	zero := c.Real(big.NewRat(0, 1))
@@ -504,7 +504,7 @@ func (m *Machine) floatBinop(it *Item, op token.Token, a, b T) Value {
 			return m.approx(it, c.Bin(sym.OpRDiv, a, b), "fdiv")
 		}
 		// q*b within a(1±u)
-		q := c.Fresh("fdiv", sym.SReal)
+		q := m.Fresh("fdiv", sym.SReal)
 		u := c.Real(ulp)
 		one := c.Real(big.NewRat(1, 1))
 		lo := c.Bin(sym.OpMul, a, c.Bin(sym.OpSub, one, u))
@@ -559,7 +559,7 @@ func (m *Machine) RoundReal(it *Item, r T) T {
 	}
 	half := c.Real(big.NewRat(1, 2))
 	zero := c.Real(big.NewRat(0, 1))
-	k := c.Fresh("round", sym.SInt)
+	k := m.Fresh("round", sym.SInt)
 	kr := c.Un(sym.OpToReal, sym.SReal, k)
 	// x>=0: x-1/2 < k <= x+1/2 ; x<0: x-1/2 <= k < x+1/2
 	posF := c.And(c.Cmp(sym.OpSlt, c.Bin(sym.OpSub, r, half), kr), c.Cmp(sym.OpSle, kr, c.Bin(sym.OpAdd, r, half)))
